@@ -11,15 +11,15 @@ import (
 
 func init() {
 	register(&Property{
-		ID:        "C18",
-		Title:     "Concurrent use: snapshot-isolated reads and no data races",
-		Technique: "static analysis: write-effect rule over every package-level variable (stores, stores through loaded references, address handed to a callee), escape/pairing rule for pooled parser instances, may-write-field reachability from the read entry points over the call graph, lockset rule for DbImpl.View",
-		LevelText: "Necessary conditions for the three things the statement names: (1) no package-level variable of ast/boltz/objectz/zitiql is written after init except through sync/atomic types; (2) pooled lexer/parser instances are returned to their pool, never escape, and all per-call parse state is freshly allocated; (3) no function reachable from the query/lookup entry points writes a field of the shared store, index, symbol or link-collection objects; (4) View runs the callback inside a bolt read transaction under the reload read-lock. Snapshot isolation itself is bbolt's MVCC and general race freedom is a dynamic property: not decided.",
-		LevelNote: "Trusted: go/types, x/tools SSA, name-and-shape CHA (over-approximates callees: sound for may-write), sync/atomic/sync.Pool semantics, bbolt MVCC.",
-		DesignRef: "DESIGN.md C18",
+		ID:          "C18",
+		Title:       "Concurrent use: snapshot-isolated reads and no data races",
+		Technique:   "static analysis: write-effect rule over every package-level variable (stores, stores through loaded references, address handed to a callee), escape/pairing rule for pooled parser instances, may-write-field reachability from the read entry points over the call graph, lockset rule for DbImpl.View",
+		LevelText:   "Necessary conditions for the three things the statement names: (1) no package-level variable of ast/boltz/objectz/zitiql is written after init except through sync/atomic types; (2) pooled lexer/parser instances are returned to their pool, never escape, and all per-call parse state is freshly allocated; (3) no function reachable from the query/lookup entry points writes a field of the shared store, index, symbol or link-collection objects; (4) View runs the callback inside a bolt read transaction under the reload read-lock. Snapshot isolation itself is bbolt's MVCC and general race freedom is a dynamic property: not decided.",
+		LevelNote:   "Trusted: go/types, x/tools SSA, name-and-shape CHA (over-approximates callees: sound for may-write), sync/atomic/sync.Pool semantics, bbolt MVCC.",
+		DesignRef:   "DESIGN.md C18",
 		Explanation: "GLOBALS sites: every package-level variable of the four packages (generated parser tables excluded: guarded by sync.Once in generated code). READPATH sites: every function reachable from the listed read entry points.",
-		Trusted:   []string{"go/types", "golang.org/x/tools/go/ssa v0.29.0", "sync, sync/atomic", "bbolt MVCC read transactions"},
-		Rules:     rulesC18,
+		Trusted:     []string{"go/types", "golang.org/x/tools/go/ssa v0.29.0", "sync, sync/atomic", "bbolt MVCC read transactions"},
+		Rules:       rulesC18,
 		Controls: []controlExpect{
 			{"C18.GLOBALS", "zzControlBadGlobalC18", true},
 			{"C18.GLOBALS", "zzControlGoodGlobalC18", false},
@@ -31,6 +31,7 @@ func rulesC18(c *Ctx) {
 	ruleC18Globals(c)
 	ruleC18SharedInstance(c)
 	ruleC18Pool(c)
+	ruleRestoreSwap(c, "C18.RESTORELOCK")
 	ruleC18ReadPath(c)
 	ruleC18View(c)
 }
@@ -153,21 +154,39 @@ func ruleC18Globals(c *Ctx) {
 	c.Floor("C18.GLOBALS", 10)
 }
 
-func ruleC18Pool(c *Ctx) {
-	p := c.P
-	fn := p.SSAFunc(p.Func("zitiql", "parse"))
-	name := FnName(fn)
-	c.Analysed(name)
+func poolGets(fn *ssa.Function) []*ssa.Call {
 	var gets []*ssa.Call
 	for _, call := range callsIn(fn) {
 		cal, _ := calleeOf(call.Common())
-		if cal != nil && cal.Pkg() != nil && cal.Pkg().Path() == "sync" && cal.Name() == "Get" {
-			gets = append(gets, call.(*ssa.Call))
+		if k, ok := call.(*ssa.Call); ok && cal != nil && cal.Pkg() != nil && cal.Pkg().Path() == "sync" && cal.Name() == "Get" && namedOf(cal.Type().(*types.Signature).Recv().Type()) != nil && namedOf(cal.Type().(*types.Signature).Recv().Type()).Obj().Name() == "Pool" {
+			gets = append(gets, k)
 		}
 	}
-	if len(gets) < 2 {
-		c.Bad("C18.POOL", name+": pooled instances", p.Pos(fn.Pos()), fmt.Sprintf("expected lexer and parser to come from sync.Pool, found %d Get calls", len(gets)))
+	return gets
+}
+
+func ruleC18Pool(c *Ctx) {
+	p := c.P
+	parseFn := p.SSAFunc(p.Func("zitiql", "parse"))
+	if n := len(poolGets(parseFn)); n < 2 {
+		c.Bad("C18.POOL", FnName(parseFn)+": pooled instances", p.Pos(parseFn.Pos()), fmt.Sprintf("expected lexer and parser to come from sync.Pool, found %d Get calls", n))
 	}
+	// every function of the repository that takes an object out of a sync.Pool
+	for _, fn := range p.SrcFuncs("zitiql", "ast", "boltz", "objectz") {
+		if p.isGenerated(fn.Pos()) {
+			continue
+		}
+		if gets := poolGets(fn); len(gets) > 0 {
+			ruleC18PoolFn(c, fn, gets)
+		}
+	}
+	ruleC18PoolTail(c, parseFn, FnName(parseFn))
+}
+
+func ruleC18PoolFn(c *Ctx, fn *ssa.Function, gets []*ssa.Call) {
+	p := c.P
+	name := FnName(fn)
+	c.Analysed(name)
 	for _, g := range gets {
 		poolVal := g.Call.Args[0]
 		// pooled object value: the TypeAssert of the Get result
@@ -231,8 +250,10 @@ func ruleC18Pool(c *Ctx) {
 					esc = "returned at " + p.Pos(x.Pos())
 				case *ssa.Store:
 					if x.Val == v {
-						if _, local := x.Addr.(*ssa.Alloc); !local {
+						if al, local := x.Addr.(*ssa.Alloc); !local {
 							esc = "stored at " + p.Pos(x.Pos())
+						} else {
+							visit(al, depth+1) // spilled local (e.g. a result slot read back after rundefers)
 						}
 					}
 				case *ssa.MakeClosure:
@@ -245,8 +266,12 @@ func ruleC18Pool(c *Ctx) {
 			}
 		}
 		visit(obj, 0)
-		c.Check(esc == "", "C18.POOL", what+": does not escape", p.Pos(g.Pos()), "the pooled instance is neither returned, stored in shared memory nor captured", "the pooled instance escapes: "+esc)
+		c.Check(esc == "", "C18.POOL", what+": does not escape", p.Pos(g.Pos()), "neither the pooled instance nor anything loaded from it is returned, stored in shared memory or captured", "the pooled instance (or memory loaded from it) escapes: "+esc)
 	}
+}
+
+func ruleC18PoolTail(c *Ctx, fn *ssa.Function, name string) {
+	p := c.P
 	// per-call state is fresh: SetInputStream arguments come from constructor calls in this function
 	n := 0
 	for _, call := range callsIn(fn) {
